@@ -30,6 +30,10 @@ CHECKS = {
    "bounded exhaustive product (6 write APIs x directories x variable definitions incl. all 256 attribute masks x values; stored mask x required mask 256x256 x file shapes) with the call trace recorded at the afero.Fs boundary and checked by a protocol automaton",
    "Every write of the product is executed on the real library over a recording filesystem and its exact call trace (path, open flags, number and content of writes, no other mutating call) is checked; every read combination is executed with a spy decoder. Exhaustive over the stated product.",
    "Trace semantics are those of afero's MemMapFs; names/GUIDs/values outside the alphabets rely on the absence of value-dependent branches.", "DESIGN.md section 4 C11"),
+ "C09": ("model_checking", "E-seq",
+   "explicit-state breadth-first search over operation sequences on the real SignatureDatabase (replay on fresh instances, full-structure state hashing), step oracle = ordered-entry view, invariants evaluated in every state",
+   "All operation sequences up to the depth bound from 3 initial states are executed on the real object; each step is judged against the abstract ordered-entry view derived from the object before/after, and every reached state is checked for query agreement, duplicate-freedom, size equations, reference-decodability and decode(encode) identity. Exhaustive up to the stated depth over the stated alphabet.",
+   "Depth bound (3 quick / 5 thorough) and finite universe of types/owners/data values; no abstraction in the state key, so deduplication is exact.", "DESIGN.md section 4 C09"),
 }
 
 NOT_YET = "check not built yet in this round (planned, see DESIGN.md section 4); no claim is made"
